@@ -188,6 +188,10 @@ func (a *advWorld) craft(class string, n int) (wire.Msg, map[wallet.BackendID]wi
 		b := baseProp("virtual")
 		b.Parents = "none"
 		return prop(b, x), S
+	case "s-virtprop-oneparent":
+		b := baseProp("virtual")
+		b.Parents = "one"
+		return prop(b, x), S
 	case "s-virtprop-foreign":
 		return prop(baseProp("virtual"), x), S
 	case "s-update-unknown":
